@@ -305,4 +305,10 @@ def _base_store(ctx):
     _t.r_base_store(ctx)
 
 
-RULES = [r_tc_relation, r_polarity, _base_store]
+def _declared_reaches_solver(ctx):
+    from rules import resources as _r
+    _r.r_declared_reaches_solver(ctx)
+
+
+RULES = [r_tc_relation, r_polarity, _base_store, _declared_reaches_solver,
+         lambda ctx: __import__("rules.validation", fromlist=["x"]).r_dup_name(ctx, only=('add_constraint',))]
